@@ -22,19 +22,21 @@ Theorem C06_abort_rows : forall (D R : Type) (c : config D R) i w f o,
 Proof. exact rollback_restores. Qed.
 Print Assumptions C06_abort_rows.
 
-(* full statement "after an aborted block every row's file still resolves": FALSE when an inner call
-   replaced or removed a file-backed value (known finding C06-F1) *)
-Theorem C06_abort_files_refuted :
+(* a body that removes files while its transaction is still open (what every call nested in a block did before the
+   repair recorded under C06-F1 in known_findings.txt) loses them when the block aborts: the row comes back, the file
+   does not.  The machine shows it on the smallest such body. *)
+Theorem C06_early_removal_loses_files :
   db blk_final = [7] /\ files blk_final 7 = FNone /\ lock blk_final = None.
 Proof. exact abort_loses_file. Qed.
-Print Assumptions C06_abort_files_refuted.
+Print Assumptions C06_early_removal_loses_files.
 
-(* strongest true restriction: blocks whose inner calls release no value file (body_ok demands
-   bo_early = []) keep every committed row's file, whatever the schedule and wherever they raise *)
-Theorem C06_abort_files_partial : forall (D R : Type) (refs : D -> list Z) (Dinv : D -> Prop) (c : config D R) s,
+(* for well-behaved bodies (body_ok demands bo_early = []: nothing is removed before the commit decision) every
+   committed row keeps its file, whatever the schedule and wherever a block raises; model/TxnBlock.v + TxnBlockFacts.v
+   below show that the blocks of the code are such bodies *)
+Theorem C06_abort_files : forall (D R : Type) (refs : D -> list Z) (Dinv : D -> Prop) (c : config D R) s,
   Inv refs Dinv c -> forall g, In g (refs (db (exec c s))) -> files (exec c s) g = FDone.
 Proof. intros D R refs Dinv c s H. apply ref_inv with (Dinv := Dinv). apply inv_exec, H. Qed.
-Print Assumptions C06_abort_files_partial.
+Print Assumptions C06_abort_files.
 
 Theorem C06_thread_owned : forall tid txn, transact_nested tid txn = true <-> txn = Some tid.
 Proof. exact bridge_transact_nested. Qed.
@@ -48,27 +50,38 @@ Proof. exact others_wait_or_time_out. Qed.
 Print Assumptions C06_others_wait_or_time_out.
 
 (* ------------------------------------------------------------------ blocks over the REAL transaction bodies
-   (model/TxnBlock.v: a block is one writing call whose body is the composition of the bodies of its inner calls) *)
+   (model/TxnBlock.v: a block is one writing call whose body is the composition of the bodies of its inner calls; the
+   files the inner calls release are removed after the block's COMMIT -- Gen_Sql.transact_defers_removals) *)
 From DC Require Import Val DiskBase SqlBase Gen_Disk Disk Cache CacheRun Refs SinvFacts Txn TxnFacts TxnBlock TxnBlockFacts.
 
-(* inline values: for every number of clients, every program of single calls and blocks (set, add, delete, pop, touch,
-   incr, lookups), every schedule with kills, the machine invariant holds; so ... *)
-Theorem C06_blocks_inline_invariant : forall c (progs : nat -> list bcall) sched,
-  (forall i, forallb (bcall_inline c) (progs i) = true) ->
-  Inv refs Winv0 (exec (init_config init_st (fun i => map (bcompile c) (progs i))) sched).
-Proof. exact block_inv. Qed.
-Print Assumptions C06_blocks_inline_invariant.
+(* the deferral is what the source says today (regenerated from _transact / _remove_after_transaction on every run) *)
+Theorem C06_removals_are_deferred : transact_defers_removals = true.
+Proof. reflexivity. Qed.
+Print Assumptions C06_removals_are_deferred.
+
+(* a block of calls -- over inline and file-backed values -- is a well-behaved body ... *)
+Theorem C06_block_is_well_behaved : forall retry ws raises,
+  Forall (body_ok refs Winv) ws -> body_ok refs Winv (w_block retry ws raises).
+Proof. exact body_ok_block. Qed.
+Print Assumptions C06_block_is_well_behaved.
+
+(* ... so for every number of clients, every program of single calls and blocks (set, add, delete, pop, touch, incr,
+   lookups), every schedule with kills, the machine invariant holds and every committed row's file is complete ... *)
+Theorem C06_blocks_invariant : forall c (progs : nat -> list bcall) sched,
+  let cf := exec (init_config init_st (fun i => map (bcompile c) (progs i))) sched in
+  Inv refs Winv cf /\ Winv (db cf) /\ (forall g, In g (refs (db cf)) -> files cf g = FDone).
+Proof. intros c progs sched. split; [apply block_inv|apply block_files_complete]. Qed.
+Print Assumptions C06_blocks_invariant.
 
 (* ... the COMMIT of a block installs all its effects at once ... *)
 Theorem C06_block_commit_atomic : forall c progs sched i retry xs raises f o,
-  (forall i, forallb (bcall_inline c) (progs i) = true) ->
   let cf := exec (init_config init_st (fun i => map (bcompile c) (progs i))) sched in
   c_pc (cl cf i) = AtCommit (w_block retry (flat_map (call_wop c) xs) raises) f o -> bo_ok o = true ->
   exists c', cstep cf i = Some c' /\ db c' = bo_db (body_block (flat_map (call_wop c) xs) raises (db cf) f) /\ lock c' = None.
 Proof. exact block_commit_atomic. Qed.
 Print Assumptions C06_block_commit_atomic.
 
-(* ... and a block that raises leaves the committed state exactly as it was *)
+(* ... and a block that raises leaves the committed state exactly as it was (rows by this step, files by the invariant) *)
 Theorem C06_block_abort_restores : forall c progs sched i retry xs raises f o,
   let cf := exec (init_config init_st (fun i => map (bcompile c) (progs i))) sched in
   c_pc (cl cf i) = AtCommit (w_block retry (flat_map (call_wop c) xs) raises) f o -> bo_ok o = false ->
@@ -76,19 +89,29 @@ Theorem C06_block_abort_restores : forall c progs sched i retry xs raises f o,
 Proof. exact block_abort_restores. Qed.
 Print Assumptions C06_block_abort_restores.
 
-(* file-backed values: the full statement is false of the code as written.  Findings C06-F1 and C06-F2 on the real
-   bodies: after `set k BIG; with transact: set k 5; raise` (resp. `pop k; raise`) the client has finished, the lock is
-   free, the row is back -- and refers to a file that no longer exists *)
-Theorem C06_abort_files_real_refuted :
-  (client_done w1_final = true /\ lock w1_final = None /\ length (rows (db w1_final)) = 1%nat /\ dangling w1_final = true) /\
-  (client_done w2_final = true /\ lock w2_final = None /\ length (rows (db w2_final)) = 1%nat /\ dangling w2_final = true).
-Proof. exact (conj abort_loses_file_real abort_loses_file_pop_real). Qed.
-Print Assumptions C06_abort_files_real_refuted.
+(* the defect that was repaired (findings C06-F1 and C06-F2), replayed on the body the code had before: after
+   `set k BIG; with transact: set k 5; raise` (resp. `pop k; raise`) the client has finished, the lock is free, the row is
+   back -- and refers to a file that no longer exists *)
+Theorem C06_old_body_loses_files :
+  (client_done old1_final = true /\ lock old1_final = None /\ length (rows (db old1_final)) = 1%nat /\ dangling old1_final = true) /\
+  (client_done old2_final = true /\ lock old2_final = None /\ length (rows (db old2_final)) = 1%nat /\ dangling old2_final = true).
+Proof. exact (conj old_body_abort_loses_file old_body_abort_loses_file_pop). Qed.
+Print Assumptions C06_old_body_loses_files.
+
+(* the same programs on the body of today: the file is still there after the abort (and after a kill before the COMMIT);
+   after a COMMIT the row holds the new value and the old file is gone *)
+Theorem C06_repaired_body_keeps_files :
+  (client_done w1_final = true /\ lock w1_final = None /\ length (rows (db w1_final)) = 1%nat /\ dangling w1_final = false) /\
+  (client_done w2_final = true /\ lock w2_final = None /\ length (rows (db w2_final)) = 1%nat /\ dangling w2_final = false) /\
+  (lock w3_final = None /\ length (rows (db w3_final)) = 1%nat /\ dangling w3_final = false) /\
+  (client_done w4_final = true /\ map rvalue (rows (db w4_final)) = [SInt 5] /\ map rfile (rows (db w4_final)) = [None] /\ files w4_final 0 = Conc.FNone).
+Proof. exact repaired_body_keeps_file. Qed.
+Print Assumptions C06_repaired_body_keeps_files.
 
 (* the block correspondence (harness/props/c06.py evaluates ConcRun.block_check on single-client programs with blocks run
    by the implementation) is sound: agreement is agreement with a configuration the machine reaches with the block as
    ONE call over the real bodies -- same outcomes, same rows and counters, and for every row its value file exists on disk
-   exactly when the machine says so (dangling rows included) *)
+   exactly when the machine says so *)
 From DC Require Import ConcRun ConcRunFacts.
 Theorem C06_block_correspondence_sound : forall c s0 setup prog events seen0 final,
   block_check c s0 setup prog events seen0 final = -1 ->
